@@ -334,7 +334,7 @@ func genReOp(t *rapid.T) ReOp {
 	op := ReOp{
 		Level: rapid.IntRange(0, 3).Draw(t, "level"),
 		Msg:   rapid.IntRange(-1, 6).Draw(t, "msg"),
-		Kind:  rapid.SampledFrom([]string{"swap", "rotate", "reverse", "unknown", "unknown", "unknown", "dup", "split"}).Draw(t, "kind"),
+		Kind:  rapid.SampledFrom([]string{"swap", "rotate", "reverse", "unknown", "unknown", "unknown", "dup", "split", "emptyfield"}).Draw(t, "kind"),
 		I:     rapid.IntRange(0, 8).Draw(t, "i"),
 		J:     rapid.IntRange(0, 8).Draw(t, "j"),
 	}
@@ -417,6 +417,18 @@ func applyReOps(tree *[]model.Item, ops []ReOp) {
 					pos = op.I % (n + 1)
 				}
 				items = append(items[:pos:pos], append([]model.Item{it}, items[pos:]...)...)
+			case "emptyfield":
+				// a conforming encoder may write an empty string/bytes field explicitly (tag + length 0), anywhere in
+				// the message - also as its very last field, where the payload "starts" exactly at the end
+				cands := map[int][]int{model.LevelSnapshot: {model.SnapMeta}, model.LevelMeta: {1, 2, 3, 7}, model.LevelDBI: {1, 4}, model.LevelKV: {2}}[op.Level]
+				if len(cands) > 0 {
+					it := model.Item{Field: cands[op.I%len(cands)], WT: model.WTBytes, Bytes: []byte{}}
+					pos := n
+					if op.J%3 == 0 && n > 0 {
+						pos = op.J % (n + 1)
+					}
+					items = append(items[:pos:pos], append([]model.Item{it}, items[pos:]...)...)
+				}
 			case "split":
 				// the (non-repeated, embedded) meta message written in two occurrences, each carrying
 				// part of the fields: every protobuf parser merges them (concatenated messages, or a
